@@ -15,7 +15,7 @@ from vlib.common import hx, unhx
 ALPHA_T = ["0", "1", "9", "h", "m", "s", ".", " ", "-", "e", "d"]
 ALPHA_L = ["a", "Z", "_", "1", "é"]
 NON_ASCII = sorted({ord(c) for c in "éí名\u00a0\u2003ß"})
-SPANISH = "/repo/units/spanish.toml"
+SPANISH = os.path.join(common.REPO, "units/spanish.toml")
 DEPS = ["Base/Chars.v", "Model/StdMeta.v"]
 COMMONS = ("common_n.ml", "common_zq.ml")
 TWO32 = 1 << 32
